@@ -175,3 +175,30 @@ Theorem C04_no_dup_acceptor_sound_composed : forall pers blk fx caps fa cls x,
                         (Compose.sub_labels x (Compose.cinit pers blk fx caps fa) cls)) = [].
 Proof. exact ComposeTrace.no_dup_acceptor_sound_composed. Qed.
 Print Assumptions C04_no_dup_acceptor_sound_composed.
+
+(** ** Round "proofs 5": the delivery acceptor on COMPOSED histories *)
+From WM Require GoChannel.ComposeAccept GoChannel.ComposeDelivered.
+(** in a quiescent state of the composed system (every Sender the registry spawned has returned in
+    its subscription's instance) every Sender (p, x) of a subscription that is not closing has
+    delivered: the API history of the whole composed run contains a receipt of p by x.  Any
+    consumer behaviour, all modes, every schedule. *)
+Theorem C04_delivered_at_quiescence_composed : forall pers blk fx caps fa cls p x,
+  let c0 := Compose.cinit pers blk fx caps fa in let c := Compose.crun c0 cls in
+  ComposeAccept.quiescent c -> In (p, x) (senders (Compose.cg c)) -> closing (Compose.ci c x) = false ->
+  1 <= Monitor.count_recv (ComposeAccept.ctrace c0 cls) x p.
+Proof. exact ComposeDelivered.delivered_at_quiescence. Qed.
+Print Assumptions C04_delivered_at_quiescence_composed.
+
+(** [Monitor.mon_delivered] accepts the history of every quiescent composed run - PARTIAL: under the
+    bookkeeping hypothesis [ComposeDelivered.Tested] (every pair the acceptor tests - good
+    subscription x whose ASubRet precedes the APubCall of a good publication p of its topic - has
+    a Sender in the registry and x is not closing).  Missing for the full
+    [ComposeAccept.delivered_acceptor_sound_composed_statement]: deriving [Tested] from the order of
+    events in [ctrace] (ASubRet before APubCall ==> x in p's snapshot), and an AChanClosed event (or
+    "no Close in the history") so that a good subscription is not closing at quiescence. *)
+Theorem C04_delivered_acceptor_sound_composed_partial : forall pers blk fx caps fa cls,
+  let c0 := Compose.cinit pers blk fx caps fa in let c := Compose.crun c0 cls in
+  let h := ComposeAccept.ctrace c0 cls ++ [Monitor.AQuiescent] in
+  ComposeAccept.quiescent c -> ComposeDelivered.Tested c h -> Monitor.mon_delivered h = [].
+Proof. exact ComposeDelivered.delivered_acceptor_sound_composed_partial. Qed.
+Print Assumptions C04_delivered_acceptor_sound_composed_partial.
